@@ -299,7 +299,11 @@ def corr_hist(ctx, n, dis, dist, samples):
                 dis.append(dict(what="fourier:update:stored-model", lean=[st["tag"], unbits(st["anis"]).tolist()],
                                 real=[find_tag(g.model), np.asarray(g.model.anis).tolist()], case=case))
                 break
-            if st["fresh"]:
+            if st["fresh"] and not st["dk_coherent"]:
+                # the given model compared equal (np.isclose) to the stored one but is not identical: the code keeps the
+                # old delta_k next to the new stored model (class of known finding F4); no fresh-equivalence expected
+                dist["isclose-incoherent"] = dist.get("isclose-incoherent", 0) + 1
+            elif st["fresh"]:
                 fresh = Fourier(g.model, period=list(g.period), mode_no=list(g.mode_no), seed=g.seed)
                 a, b = g(pos, add_nugget=False), fresh(pos, add_nugget=False)
                 if not np.array_equal(a, b):
@@ -438,7 +442,7 @@ def search_histories(ctx, n, viol):
                 elif kind == "inplace_anis" and dim > 1:
                     anis = rnd_anis(rng, dim); srf.model.anis = anis
                 elif kind == "inplace_len":
-                    srf.model.len_scale = float(rng.uniform(1, 20))
+                    srf.model.len_scale = float(rng.choice([2.0, 3.0, 5.0, 7.0, 11.0, 13.0, 17.0]))   # well separated: not inside the isclose band
                 elif kind == "inplace_angles" and dim > 1:
                     angles = rnd_angles(rng, dim); srf.model.angles = angles
                 elif kind == "update_same_model":
